@@ -172,6 +172,16 @@ func TestRoutes(t *testing.T) {
 					return
 				}
 			}
+			// universal suffix: whatever the history, a flush followed by a restart reloads the same table
+			if n := len(h.Hist); n > 0 {
+				want := imgSet(h.Hist[n-1].Table)
+				route.Flush()
+				route.Reset(route.JSON)
+				if got, _ := realRoutes(); got != want {
+					add(mismatch{name, n, "table-after-final-flush+restart", want, got})
+					return
+				}
+			}
 			before, _ := realRoutes()
 			for _, m := range h.Match {
 				for k := 0; k < 16; k++ { // Go randomises map iteration order
@@ -351,6 +361,15 @@ func TestUsers(t *testing.T) {
 						add(mismatch{name, i, "get(" + e.Name + ")", e.Name, fmt.Sprint(u)})
 						return
 					}
+				}
+			}
+			// universal suffix: whatever the history, a flush followed by a restart reloads the same table
+			if n := len(h.Hist); n > 0 {
+				want := userSet(h.Hist[n-1].Table)
+				auth.Flush()
+				auth.Reset(auth.JSON)
+				if got, _ := realUsers(); got != want {
+					add(mismatch{name, n, "table-after-final-flush+restart", want, got})
 				}
 			}
 		}()
@@ -549,6 +568,51 @@ func TestCrash(t *testing.T) {
 			res.Outcome = "noflush" // nothing pending: no write happened at all
 		} else if completed && kill != "" && !strings.HasPrefix(res.Outcome, "VIOLATION") {
 			res.Outcome = "drift:kill point " + kill + " never reached; fired=" + strings.Join(res.Fired, ",")
+		}
+		// life goes on after the crash: shrink the loaded table to one entry, flush, restart.
+		// (a temporary file left behind by the crashed flush must not leak into the new file)
+		if !strings.HasPrefix(res.Outcome, "VIOLATION") && !strings.HasPrefix(loaded, "<unloadable") {
+			rec := func() (s string) {
+				defer func() {
+					if e := recover(); e != nil {
+						s = fmt.Sprintf("<unloadable: %v>", e)
+					}
+				}()
+				want := ""
+				if kind == "user" {
+					us := auth.All()
+					for i, u := range us {
+						if i > 0 {
+							auth.Del(u.Name)
+						}
+					}
+					want, _ = realUsers()
+					auth.Flush()
+					auth.Reset(auth.JSON)
+					got, _ := realUsers()
+					if got != want {
+						return "after recovery expected {" + want + "} loaded {" + got + "}"
+					}
+				} else {
+					rs := route.All()
+					for i, r := range rs {
+						if i > 0 {
+							route.Del(r.Pattern)
+						}
+					}
+					want, _ = realRoutes()
+					route.Flush()
+					route.Reset(route.JSON)
+					got, _ := realRoutes()
+					if got != want {
+						return "after recovery expected {" + want + "} loaded {" + got + "}"
+					}
+				}
+				return ""
+			}()
+			if rec != "" {
+				res.Outcome = "VIOLATION:after a crash at " + kill + ", restart, deleting all but one entry, flush and restart: " + rec
+			}
 		}
 		os.Remove(file)
 		os.Remove(file + ".tmp")
